@@ -65,7 +65,8 @@ def classify(pid, agg):
             if hit is None:
                 un.append((cid, case, v))
             else:
-                matched[hit['id']] = matched.get(hit['id'], 0) + 1
+                matched[hit['id']] = matched.get(hit['id'], 0) + max(1, e.get('known_counts', {}).get(hit['id'], 1)
+                                                                     if str(sk).startswith('known:') else 1)
         if e.get('overflow') and not un:
             # more distinct scopes than tracked: cannot prove all are listed
             un.append((e['cid'], e['case'], e['v']))
